@@ -100,6 +100,104 @@ k("h_kernel::k_fresh_chunk_fits", ["C12", "C05", "C10"], ["calc_hint_from_capaci
   tier="quick", bound="header align<=256, header size<=512, layout size<2^16, align<=2^12, extra hint<2^17, over-grant<=4096, address<2^40", timeout=1800)
 
 
+# ----------------------------------------------------------------------------- Layer II, Kani (pointer level)
+# All of these start from an ARBITRARY well-formed state of a K-chunk arena (state.rs): symbolic current
+# chunk, symbolic position of every chunk, nondeterministic memory contents, symbolic layouts / live blocks.
+# Bounded dimensions (=> strength B): chunk sizes are literals (48/112/240 bytes or as stated), K <= 3,
+# layout sizes as stated, the settings / allocator instantiation in `inst`.
+import re as _re
+
+
+def _arena_h():
+    import os as _os
+    here = _os.path.dirname(_os.path.dirname(_os.path.abspath(__file__)))
+    out = []
+    for f in ("h_arena", "h_realloc", "h_scope"):
+        pth = _os.path.join(here, "kani", "incrate", f + ".rs")
+        if not _os.path.exists(pth):
+            continue
+        txt = open(pth).read()
+        for m in _re.finditer(r"inst!\((\w+),(?: unwind (\d+),)? (\w+), ([^;]*?)\);", txt):
+            out.append((f, m.group(1), m.group(3), m.group(4)))
+        for m in _re.finditer(r"#\[kani::proof\]\n(?:#\[kani::unwind\(\d+\)\]\n)?(?:#\[kani::should_panic\]\n)?pub\(crate\) fn (\w+)\(\) \{\n    (\w+)::<([^;]*?)>\(([^;]*?)\);", txt):
+            out.append((f, m.group(1), m.group(2), m.group(3) + " | " + m.group(4)))
+    return out
+
+
+_OB = {
+    # generic fn: (props, functions under contract, contract text, bound)
+    "ob_chunk_alloc": (["C01", "C02", "C10", "C07"], ["raw_bump::RawChunk::alloc", "raw_bump::RawChunk::bump_props", "raw_bump::NonDummyChunk::set_pos_addr", "raw_bump::NonDummyChunk::new"],
+                       "Some(p): p aligned, inside the free range, nearest (kernel contract), new pos past the block & MIN_ALIGN-aligned; None: nothing changes and nothing fits; frame: only the current pos moves; no content byte written (witness byte); allocated set only grows; wf after; constructors establish wf",
+                       "literal chunk sizes, K<=2, layout size<=600, align<=128"),
+    "ob_chunk_prepare": (["C15", "C01", "C10"], ["raw_bump::RawChunk::prepare_allocation", "raw_bump::RawChunk::prepare_allocation_range"],
+                         "no header field changes; result inside the free range, aligned; range = [least aligned >= free start, greatest aligned <= free end] >= request; None only if nothing fits",
+                         "one chunk of 240/496 bytes, layout size<=300, align<=128"),
+    "ob_reset_to": (["C03", "C05", "C02", "C10"], ["bump_scope_guard::Checkpoint::new", "bump_scope_guard::Checkpoint::reset_within_chunk", "raw_bump::RawBump::checkpoint", "raw_bump::RawBump::reset_to"],
+                    "from ANY later state (current chunk >= checkpoint chunk, all later positions arbitrary): current chunk, position and allocated byte count exactly as at the checkpoint; no other header field changes; no content byte written; base allocator never called; all chunks still owned",
+                    "K=2 (48+112 bytes)"),
+    "ob_claim": (["C14", "C10"], ["raw_bump::RawBump::claim", "raw_bump::RawBump::reclaim", "raw_bump::RawBump::is_claimed", "raw_bump::RawChunk::classify", "allocator_impl::deallocate", "allocator_impl::shrink", "raw_bump::RawBump::{alloc,alloc_sized,alloc_slice,prepare_*,reserve,make_allocated}", "stats::Stats::*"],
+                 "claim: original becomes the claimed dummy, guard holds the old chunk, no header touched; on the claimed handle every request fails (AllocError), deallocate/shrink of any block of any real chunk change nothing and return the block, stats all zero; reclaim: original continues at the guard's chunk, no header touched, wf",
+                 "K<=2, ZST base allocator (see DESIGN: dummy header cast)"),
+    "ob_align_to": (["C18", "C10"], ["raw_bump::RawBump::align_to", "align_pos"],
+                    "pos' = least/greatest multiple of M in bump direction (no-op when M <= MIN_ALIGN), inside the chunk, allocated grows by < M, nothing else changes, wf",
+                    "K<=2"),
+    "ob_deallocate": (["C13", "C01", "C02", "C10"], ["allocator_impl::deallocate", "allocator_impl::is_last", "allocator_impl::deallocate_assume_last", "raw_bump::NonDummyChunk::set_pos_addr_and_align"],
+                      "for ANY block inside the allocated region: DEALLOCATES && newest block => pos' = align_pos(block start / end), only the block is reclaimed; otherwise no header field changes and allocated bytes unchanged; never writes content; wf",
+                      "K<=2, block size<=200, align<=32"),
+    "ob_bump_alloc": (["C01", "C02", "C07", "C10", "C12", "C05", "C03"], ["raw_bump::RawBump::alloc", "raw_bump::RawBump::alloc_in_another_chunk", "raw_bump::RawBump::in_another_chunk", "raw_bump::NonDummyChunk::append_for", "raw_bump::NonDummyChunk::new", "raw_bump::NonDummyChunk::grow_size", "raw_bump::NonDummyChunk::reset"],
+                      "Ok: aligned, inside owned memory, block was free; served from a later chunk only after that chunk's position was reset, earlier chunks untouched; or exactly one new chunk appended, request fits in it (unreachable_unchecked never reached), links symmetric, strictly larger, >= 2*prev-16; Err (failing base allocator): no chunk leaked, invariant holds, current chunk valid; allocated set only grows; no content byte written; nothing released",
+                      "K<=3, layout size<=200, align<=64, base allocator fails nondeterministically"),
+    "ob_bump_alloc_nogrow": (["C01", "C02", "C07", "C10", "C03"], ["raw_bump::RawBump::alloc", "raw_bump::RawBump::in_another_chunk"],
+                             "same contract with a base allocator that refuses every further chunk",
+                             "K=2, layout size<=200"),
+    "ob_reset": (["C03", "C05", "C10"], ["raw_bump::RawBump::reset", "raw_bump::NonDummyChunk::deallocate", "raw_bump::NonDummyChunk::layout", "raw_bump::NonDummyChunk::for_each_prev", "raw_bump::RawBump::manually_drop"],
+                 "exactly the last (largest) chunk stays, every other grant released exactly once with the same alignment and a size between requested and granted; remaining chunk unlinked and empty; then manually_drop returns the last one: every grant returned exactly once",
+                 "K<=3"),
+    "ob_reset_to_start_and_drop": (["C03", "C05", "C10"], ["raw_bump::RawBump::reset_to_start", "raw_bump::RawBump::manually_drop", "raw_bump::NonDummyChunk::for_each_next"],
+                                   "first chunk current at its start, nothing allocated, nothing released, later chunks untouched, wf; manually_drop from ANY current chunk returns every grant exactly once (fitting layout)",
+                                   "K<=3"),
+    "ob_stats": (["C10"], ["stats::Stats::*", "stats::Chunk::*", "stats::any::AnyStats::*", "stats::any::AnyChunk::*", "raw_bump::NonDummyChunk::{size,capacity,allocated,remaining,chunk_start,chunk_end,content_start,content_end}"],
+                 "count/size/capacity/allocated/remaining equal the sums over the grant-derived geometry; allocated+remaining == capacity <= size; per chunk ranges equal the geometry; forward and backward iteration are reverses; AnyChunk/AnyStats report the same numbers and ranges as the typed ones",
+                 "K<=3; allocators: ZST, 8-byte, align-32"),
+    "ob_realloc": (["C02", "C01", "C13"], ["allocator_impl::grow", "allocator_impl::grow_zeroed", "allocator_impl::shrink", "allocator_impl::align_fits", "without_dealloc::WithoutShrink::shrink", "without_dealloc::WithoutDealloc::{grow,shrink}", "bump_down (lib.rs)"],
+                   "for ANY live sub-block and independent old/new alignments: result aligned, >= requested, inside owned memory; first min(old,new) bytes preserved (witness index); no byte outside the new block written (witness byte); new block disjoint from every other allocated byte; other allocated bytes stay allocated; grow_zeroed tail zero; upward newest block with room grows in place; shrinking a non-newest block reclaims nothing; SHRINKS=false / WithoutShrink never decrease allocated; Err only when the base allocator refuses and then nothing is written; wf",
+                   "one chunk of 48 bytes (quick) / 48+112 bytes (thorough), old size<=8..24, new size<=12..32, old align<=16, new align<=32, base allocator refuses further chunks"),
+    "ob_allocate_zeroed": (["C02", "C01"], ["alloc::Allocator::allocate_zeroed (default method) for BumpScope", "allocator_impl::allocate"],
+                           "block aligned and >= requested; every byte of it reads 0 although the memory was nondeterministic before; no byte outside it written; wf",
+                           "K=2, size<=40"),
+    "ob_scope_guard": (["C03", "C05", "C10", "C01"], ["bump_scope_guard::BumpScopeGuard::{new,scope,reset,drop}", "traits::BumpAllocator::{scope_guard,scoped}", "raw_bump::RawBump::{checkpoint,reset_to,alloc}"],
+                       "after a nondeterministic workload inside (nothing / allocations that may move to the next chunk), guard reset and guard drop / closure return restore current chunk, position and allocated byte count exactly; earlier chunks untouched; every byte allocated before is still allocated and unchanged; nothing released; wf",
+                       "K=2 (48+112 bytes), <=2 allocations of <=40 bytes inside, base allocator refuses new chunks"),
+    "ob_aligned": (["C18", "C03", "C10"], ["traits::BumpAllocatorScope::aligned", "traits::BumpAllocator::scoped_aligned", "bump_align_guard::BumpAlignGuard::{new,drop}", "raw_bump::RawBump::align"],
+                   "inside: position multiple of N at entry and after every allocation; after aligned: position multiple of the outer MIN_ALIGN, never moved backwards; after scoped_aligned: exactly the entry position and byte count; earlier data intact; wf",
+                   "K=2, (outer,inner) in {(1,16),(8,1),(8,2)} aligned, {(1,16),(1,8)} scoped_aligned, <=2 allocations of <=24 bytes"),
+    "ob_try_with": (["C03", "C15", "C01", "C07", "C10"], ["bump_scope::BumpScope::generic_alloc_try_with", "bump_scope::BumpScope::generic_alloc_try_with_mut", "bump_scope::BumpScope::generic_alloc_uninit", "raw_bump::RawBump::prepare_sized_allocation"],
+                    "closure Err: error passed through and position, current chunk, byte count exactly as before; closure Ok: value stored, aligned, allocated, position = end (up) / start (down) of the value aligned to MIN_ALIGN; allocation failure: earlier allocations kept; wf",
+                    "K=2, T=u32, E=u8"),
+    "ob_unallocated": (["C05", "C10", "C07", "C03", "C12"], ["raw_bump::RawBump::new", "raw_bump::RawBump::{stats,checkpoint,reset,reset_to_start,align_to,reset_to}", "raw_bump::RawBump::in_another_chunk (Unallocated arm)", "raw_bump::NonDummyChunk::new"],
+                       "unallocated arena: stats all zero, non-allocating calls never call the base allocator; first allocation creates exactly one chunk in which the request fits (or fails leaving the arena unallocated); the unallocated checkpoint rewinds to the start of the first chunk",
+                       "layout size<=300, align<=64, upward"),
+    "ob_unallocated_drop": (["C05", "C07"], ["raw_bump::RawBump::{alloc,reserve,make_allocated,manually_drop}"],
+                            "refused first chunk: Err, arena stays unallocated; dropping releases nothing", "downward, MIN_ALIGN 4"),
+    "ob_second_claim_panics": (["C14"], ["raw_bump::RawBump::claim"], "a second claim does not return (panics)", "should_panic harness"),
+    "ob_claim_guard": (["C14", "C10"], ["bump_claim_guard::BumpClaimGuard::{new,deref,deref_mut,drop}", "traits::BumpAllocatorScope::claim"],
+                       "while the guard lives the original is claimed and fails; allocations through the guard stay live; a scope opened through the guard is fully undone; after drop the original is unclaimed and continues on a real chunk; wf",
+                       "K=2, <=1 allocation through the guard and <=1 inside its inner scope"),
+}
+
+# duplicates of a quick obligation that are slow: thorough tier only
+_THOROUGH = {"scope_guard_dn8", "scoped_closure_up8", "claim_guard_dn8", "aligned_up8_to2", "scoped_aligned_up1_to8",
+             "bump_alloc_up8_k3", "stats_up1_zst_k3"}
+
+for (_f, _name, _gen, _args) in _arena_h():
+    if _gen not in _OB or _name.startswith("exp_"):
+        continue
+    _props, _fns, _text, _bound = _OB[_gen]
+    _thorough = (_f == "h_realloc" and (_name.endswith("_k2") or _name.endswith("_128"))) or _name in _THOROUGH
+    k("%s::%s" % (_f, _name), _props, _fns, "B", _text, tier=("thorough" if _thorough else "quick"), bound=_bound,
+      timeout=(2400 if _thorough else 900), inst=_args)
+
+
 def for_property(pid, tier):
     vs = [o for o in V if pid in o["props"]]
     ks = [o for o in K if pid in o["props"] and (tier == "thorough" or o["tier"] == "quick")]
